@@ -16,7 +16,7 @@ pub fn def() -> CheckDef {
         rule: "case = a step with one timed interrupt (1..3 rules in s/m/h/d on the act, and in a third of the cases rules on the step as well) x tick_interval_secs in {1,2,15,60} x tick phase (seeded clock offset before the engine is built) x the simulated instant at which the client answers the act (before / around / after each limit, or never) x optional stalled ticks (forward clock jumps of several periods) x seeded schedule. The discrete-event clock jumps from tick to tick. RefTimeline: per task instance and rule at most one firing; never before start_time + limit; fired by the quiescent point after the first tick at/after the limit while the task is open; no firing once the task is terminal; the timed task's state is unchanged by a firing. non-trivial = a limit elapsed while its task was open; distinct = distinct (scenario hash, schedule hash, fault hash)",
         level: "exploration",
         assumptions: &["monotone simulated clock; the engine compares whole milliseconds, so a tick within 1 ms of the limit is accepted either way", "the timed process stays cached (eviction is C13's subject)", "no storage errors are injected"],
-        probes: &["probe.rule_fired", "probe.answered_before_limit", "probe.two_rules_fired_at_different_ticks", "probe.stalled_tick", "probe.step_level_rule", "probe.tick_on_limit_ms", "probe.never_answered"],
+        probes: &["probe.answered_by_caught_error", "probe.timed_act_is_a_call", "probe.rule_fired", "probe.answered_before_limit", "probe.two_rules_fired_at_different_ticks", "probe.stalled_tick", "probe.step_level_rule", "probe.tick_on_limit_ms", "probe.never_answered"],
         quick_cases: 3000,
         no_shrink: &[],
     }
@@ -63,11 +63,23 @@ pub fn case(ctx: &mut CaseCtx) -> CaseOut {
     let pre_jump = gr.range(0, tick * 1_000_000);
     let stall = if gr.below(4) == 0 { Some((gr.range(1, 6) as usize, gr.range(2, 5) * tick * 1_000_000 + gr.range(0, 999_999))) } else { None };
     let knobs = random_knobs(&mut gr);
+    // the timed act: an interrupt, or (a quarter) a call of a sub-workflow whose only act is the interrupt
+    let timed_is_call = gr.below(4) == 0;
+    // the answer: complete, or (a fifth, interrupts only) an error that the catch of the enclosing step takes - the
+    // timed act is then closed (error) while the process goes on in the catch steps, which wait for a client
+    let answer_is_error = !timed_is_call && gr.below(5) == 0;
     let sc = ctx.scenario(|_| {
         let mut sc = Scenario::default();
-        let act = MAct { id: "timed".into(), key: "kt".into(), kind: ActKind::Irq, timeouts: ons.iter().map(|o| MTimeout { on: o.clone(), steps: rule_steps("act", o) }).collect(), ..Default::default() };
-        let step = MStep { id: "s1".into(), acts: vec![act], timeouts: step_rules.iter().map(|o| MTimeout { on: o.clone(), steps: rule_steps("step", o) }).collect(), ..Default::default() };
+        let kind = if timed_is_call { ActKind::Subflow { to: "child".into(), options: BTreeMap::new() } } else { ActKind::Irq };
+        let act = MAct { id: "timed".into(), key: "kt".into(), kind, timeouts: ons.iter().map(|o| MTimeout { on: o.clone(), steps: rule_steps("act", o) }).collect(), ..Default::default() };
+        let mut step = MStep { id: "s1".into(), acts: vec![act], timeouts: step_rules.iter().map(|o| MTimeout { on: o.clone(), steps: rule_steps("step", o) }).collect(), ..Default::default() };
+        if answer_is_error {
+            step.catches.push(MCatch { on: None, steps: vec![MStep { id: "caught".into(), acts: vec![MAct { id: "caught_a".into(), key: "k_after_catch".into(), kind: ActKind::Irq, ..Default::default() }], ..Default::default() }] });
+        }
         sc.models.push(MWorkflow { id: "m".into(), steps: vec![step, MStep { id: "s2".into(), ..Default::default() }], ..Default::default() });
+        if timed_is_call {
+            sc.models.push(MWorkflow { id: "child".into(), steps: vec![MStep { id: "cs1".into(), acts: vec![MAct { id: "child_irq".into(), key: "kt".into(), kind: ActKind::Irq, ..Default::default() }], ..Default::default() }], ..Default::default() });
+        }
         sc.starts.push(Start { model: "m".into(), vars: serde_json::Map::new(), pid: Some("p1".into()), at_q: 0 });
         sc.engine.keep_processes = true;
         sc.engine.tick_interval_secs = tick;
@@ -105,6 +117,15 @@ pub fn case(ctx: &mut CaseCtx) -> CaseOut {
     let stall = sc.faults.iter().find(|f| f.kind == "jump").map(|f| (f.at_q, f.arg));
     let horizon_ticks = ((2 * max_l + 3 * tick) / tick + 6).min(400) as usize;
     let ans = answer_at;
+    // read from the scenario (replays): the step's catch tells that the answer is an error
+    let err_answer = sc.models.first().and_then(|m| m.steps.first()).map(|s| !s.catches.is_empty()).unwrap_or(false);
+    let is_call = sc.models.len() > 1;
+    if err_answer {
+        ctx.count("probe.answered_by_caught_error", 1);
+    }
+    if is_call {
+        ctx.count("probe.timed_act_is_a_call", 1);
+    }
     let rec = ctx.run_with(&sc, move |w| {
         if let Err(e) = w.deploy_all() {
             w.rec.lock().unwrap().rec.panics.push(format!("deploy: {e}"));
@@ -145,7 +166,12 @@ pub fn case(ctx: &mut CaseCtx) -> CaseOut {
                         if let Some(oa) = oa {
                             answered = true;
                             let engine = w.engine().clone();
-                            crate::world::do_action(&engine, &w.rec, &oa.pid, &oa.tid, "complete", &serde_json::Map::new(), &oa.key, "client", true);
+                            let mut o = serde_json::Map::new();
+                            if err_answer {
+                                o.insert("ecode".into(), json!("e1"));
+                                o.insert("message".into(), json!("boom"));
+                            }
+                            crate::world::do_action(&engine, &w.rec, &oa.pid, &oa.tid, if err_answer { "error" } else { "complete" }, &o, &oa.key, "client", true);
                             continue;
                         }
                     }
@@ -186,13 +212,14 @@ pub fn case(ctx: &mut CaseCtx) -> CaseOut {
     for (owner_nid, prefix, rules) in [("timed", "act", &ons), ("s1", "step", &step_rules)] {
         let Some(t) = live.tasks.iter().find(|t| t.nid == owner_nid) else { continue };
         let t0_ms = t.start_time;
-        let term: Option<&TransRec> = rec.trans.iter().find(|x| x.tid == t.tid && is_terminal_state(&x.new));
+        // closed = the last state write of the task is terminal (a step revived by its catch is open again)
+        let term: Option<&TransRec> = rec.trans.iter().filter(|x| x.tid == t.tid).last().filter(|x| is_terminal_state(&x.new));
         let term_ms = term.map(|x| x.now_us.div_euclid(1000));
         for on in rules.iter() {
             let l_ms = limit_secs(on) * 1000;
             let Some(step_id) = first_step.get(&(prefix.to_string(), on.clone())).cloned() else { continue };
-            let firings: Vec<&TransRec> = rec.trans.iter().filter(|x| x.nid == step_id && x.old == "none").collect();
-            let sig = |what: &str| json!({"owner": prefix, "what": what, "rules_on_task": rules.len().min(3)});
+            let firings: Vec<&TransRec> = rec.trans.iter().filter(|x| x.nid == step_id && x.old == "none" && !x.pure_write).collect();
+            let sig = |what: &str| json!({"owner": prefix, "what": what, "rules_on_task": rules.len().min(3), "timed_act": if is_call { "call" } else { "irq" }});
             if firings.len() > 1 {
                 v.push(Violation::new("C19", "rule_fired_more_than_once", sig("count"), format!("rule {} of {} {} fired {} times", on, prefix, owner_nid, firings.len())));
                 break;
